@@ -17,6 +17,7 @@ package ggql
 import (
 	"bytes"
 	"fmt"
+	"go/token"
 	"io"
 	"io/fs"
 	"reflect"
@@ -235,8 +236,10 @@ func (root *Root) regField(obj *Object, fd *FieldDef, goField string, args ...st
 		meta = meta.Elem()
 	}
 	if meta.Kind() == reflect.Struct {
+		// Only an exported field can be read, an unexported one of the same
+		// name usually comes with a method that is looked for next.
 		if field, ok := meta.FieldByNameFunc(func(name string) bool {
-			return strings.EqualFold(name, goField)
+			return strings.EqualFold(name, goField) && token.IsExported(name)
 		}); ok {
 			fd.goField = field.Name
 			if 0 < len(args) {
